@@ -151,6 +151,14 @@ func splitSig(s string) (string, string, string, error) {
 	if i < 0 {
 		return "", "", "", fmt.Errorf("expected '(' in %q", s)
 	}
+	if strings.HasPrefix(strings.TrimSpace(s), "(") {
+		// method name "(recv).Name(params)": the parameter list starts at the second top-level '('
+		if j := strings.Index(s, ")."); j > 0 {
+			if k := strings.Index(s[j:], "("); k > 0 {
+				i = j + k
+			}
+		}
+	}
 	depth := 0
 	for j := i; j < len(s); j++ {
 		if s[j] == '(' {
